@@ -162,7 +162,7 @@ def build(case):
         lab = "L{}".format(i)
         if variant == "min" and kind != "equ" and lab not in referenced:
             lab = ""
-        if variant.startswith("dup") and i == n - 1 and n >= 2:
+        if variant in ("dup", "duplow") and i == n - 1 and n >= 2:
             lab = "L0" if kind != "equ" or True else lab
         if bind[i]:
             optxt = optxt.replace("{L}", bind[i])
@@ -171,6 +171,9 @@ def build(case):
     if variant == "dig":
         import re as _re
         lines = [_re.sub(r"\bL(\d)\b", lambda m: m.group(1) + "DIG", _re.sub(r"\bUNDEF\b", "9UNDEF", ln)) for ln in lines]
+    if variant in ("low", "duplow"):        # labels spelt with lower-case letters: loop0, loop1 ... (names are case-sensitive)
+        import re as _re
+        lines = [_re.sub(r"\bL(\d)\b", lambda m: "loop" + m.group(1), _re.sub(r"\bUNDEF\b", "nowhere", ln)) for ln in lines]
     return lines, labels
 
 
@@ -187,6 +190,10 @@ def cases(tier, seed):
     for a in CORE:
         for b in CORE:
             yield from programs_for((a, b), ("dig",))        # labels spelt 0DIG, 1DIG ...: a name may start with a digit
+            yield from programs_for((a, b), ("low",))        # labels spelt loop0, loop1 ...
+    for a in tags:
+        for b in tags:
+            yield {"tags": [a, b], "bind": [("L0" if "{L}" in TAGS[x][2] else None) for x in (a, b)], "variant": "duplow"}
     core = CORE if tier == "quick" else tags
     for a in core:
         for b in core:
@@ -418,6 +425,8 @@ def check_case(case):
     out = common.assemble_confirm(lines)
     if case.get("variant") == "dig" and out["kind"] == "OK":
         out = dict(out, symbols={("L" + k[0] if k.endswith("DIG") and k[:-3].isdigit() else k): v for k, v in out["symbols"].items()})
+    if case.get("variant") in ("low", "duplow") and out["kind"] == "OK":
+        out = dict(out, symbols={("L" + k[4:] if k.startswith("loop") and k[4:].isdigit() else k): v for k, v in out["symbols"].items()})
     v, st = evaluate(case, lines, labels, out)
     res = {"state": st if st.startswith("OK:") else st + ":" + ",".join(case["tags"]), "outcome": out["kind"],
            "nontrivial": st.startswith("OK:")}
